@@ -50,14 +50,14 @@ CHECKS = {
             "Histories of gets, returns, takes, retains, resizes, rejected recycles, failing hooks and cancellations. Per object id the harness keeps its own hand-out count h. After every hand-out Object::metrics() must show the same created instant, recycle_count == h-1 and recycled absent for h == 1 and non-decreasing afterwards; hooks and Manager::recycle during the h-th hand-out must see recycle_count == h-2 and no recycled instant before the first reuse; post_create hooks see fresh metrics; retain must see exactly what Object::metrics() last reported.",
             "instants are only compared with each other, never with a wall-clock threshold; " + B, "stateful property-based testing (proptest); per-object reference counters as oracle", "6 C13"),
     "C10": ("tsim", "exploration",
-            "Managed and unmanaged pools with pool-level and per-call wait / create / recycle timeouts in {none, zero, finite}, runtime present (paused tokio clock, futures polled by hand, every woken future polled after every step, Advance stopping at each pending deadline; lazy steps leave a woken caller unpolled until later, so a completion that came before the deadline is observed after it) or absent (no tokio context at all). An independent reference model of FIFO admission, idle queue, gated create / recycle calls and their deadlines predicts for every call whether it is pending or finished and with which result (object id, Timeout(Wait), Timeout(Create), Closed, NoRuntimeSpecified, Backend), which objects were rejected, and how many slots are in use; build() must refuse non-zero timeouts without a runtime.",
+            "Managed and unmanaged pools with pool-level and per-call wait / create / recycle timeouts in {none, zero, below one millisecond, finite} handed to the builder in four different ways, runtime present (paused tokio clock, futures polled by hand, every woken future polled after every step, Advance stopping at each pending deadline; lazy steps leave a woken caller unpolled until later, so a completion that came before the deadline is observed after it) or absent (no tokio context at all). An independent reference model of FIFO admission, idle queue, gated create / recycle calls and their deadlines predicts for every call whether it is pending or finished and with which result (object id, Timeout(Wait), Timeout(Create), Closed, NoRuntimeSpecified, Backend), which objects were rejected, and how many slots are in use; build() must refuse non-zero timeouts without a runtime.",
             "tokio runtime only; ties between two callers' deadlines are skipped; zero create / recycle timeouts without a runtime and timeouts a call never gets to use are not judged (an up-front NoRuntimeSpecified that touches nothing is accepted)",
             "model-based property testing (proptest) on a virtual clock, plus a libFuzzer stage over the same interpreter in the thorough tier; reference timing model as oracle", "6 C10"),
     "C16": ("pgx", "exploration",
             "deadpool-postgres is run through Manager::from_connect against an in-process scripted PostgreSQL wire server (startup, simple query, Parse / Describe / Sync, Close, BEGIN / ROLLBACK) over tokio duplex streams. Histories of get / return / take / resize / prepare_cached / prepare_typed_cached (direct, through transactions, and several for one key in flight at once) / cache and registry clear / remove, with server-side kills (now, on next query, on next Parse) and failing checks. Oracles: a connection the server closed before a get is never handed out; between return and hand-out the server sees exactly the documented check of the recycling method; a client whose check got an ErrorResponse is never handed out; reference statement-cache map per client (hit = same statement, no frontend message; miss = exactly one Parse with the same text and type oids; size() = number of keys); registry calls reach exactly the clients whose wrapper is alive and not taken (ground truth from Arc counts).",
             "trusted: the scripted server's fidelity; quiescence is reached by a yield loop on a current-thread runtime", "stateful property-based testing (proptest) against a scripted wire-protocol server; reference cache model and wire log as oracle", "6 C16"),
     "C17": ("redx", "exploration",
-            "The standalone deadpool-redis pool is built from a redis+unix:// URL and run against an in-process scripted RESP server that answers the n-th recycling PING with the correct echo, a stale echo, another value, the empty string, a prefix or an extension of the expected value, -ERR, a disconnect or silence; histories include Churn(n <= 600) rounds of echoed get + return so that PING values reach several digits and pass 256. No PING value may ever be sent twice. At every reuse the server log since the return must be exactly UNWATCH then PING v with v never used before on this pool, answered with v, and the watch set must be empty; a connection whose PING was answered otherwise must never be handed out again and the get must succeed on another connection; Connection::take shrinks the pool by one, the taken connection keeps working and never comes back; the end probe takes the full capacity.",
+            "The standalone deadpool-redis pool is built from a redis+unix:// URL and run against an in-process scripted RESP server that answers the n-th recycling PING with the correct echo, a stale echo, another value, the empty string, a prefix or an extension of the expected value, -ERR, a disconnect or silence; histories include GetPair (two get() calls in flight at once) and Churn(n <= 600) rounds of echoed get + return so that PING values reach several digits and pass 256. No PING value may ever be sent twice. At every reuse the server log since the return must be exactly UNWATCH then PING v with v never used before on this pool, answered with v, and the watch set must be empty; a connection whose PING was answered otherwise must never be handed out again and the get must succeed on another connection; Connection::take shrinks the pool by one, the taken connection keeps working and never comes back; the end probe takes the full capacity.",
             "trusted: the scripted server; silence is ended by a 40 ms recycle timeout (no verdict depends on the wall clock); one-directional: rejecting a correct echo is allowed", "stateful property-based testing (proptest) against a scripted RESP server; wire log as oracle", "6 C17"),
     "C18": ("cfgx", "exploration",
             "Generated deadpool_postgres::Config values (every subset of the 20 fields, strings from ASCII / empty / quoting / percent-escape / non-ASCII pools, URLs from a URI and key=value grammar plus mutated and raw strings, every enum variant, pool and manager sections, runtime present or absent, ports from a small pool so that URL / port / ports coincide, create_pool called inside or outside a tokio context). get_pg_config() under catch_unwind is compared with a reference translation written from the statement: InvalidUrl iff tokio_postgres rejects the URL, DbnameMissing / DbnameEmpty by the effective dbname, every set scalar in effect, hosts / hostaddrs / ports = URL's then singular then plural, defaults only when no host is given; builder() must carry the whole pool section (including queue_mode) and the manager section, create_pool must carry them into the built pool and report timeouts without a runtime as a build error.",
@@ -69,7 +69,7 @@ CHECKS = {
             "A SyncWrapper around a value that records the thread and a logical stamp of its construction, of every closure and of its destruction is driven through generated histories of interact (returning / panicking / gated / gated-then-panicking closures), await, cancel, release-gate, drop-wrapper and poison-check steps on a current-thread or multi-thread tokio runtime with 1 / 2 / 4 blocking threads. Every harness future records the thread of each of its polls. Oracles: constructor, closures and destructor never run on a thread that polled async code or ran the driver; the destructor runs exactly once, after the last closure began and outside every closure's begin..end interval; a panicking closure yields InteractError::Panic and is_mutex_poisoned() from then on; a cancelled interact still lets its closure finish before destruction.",
             "ordering between the async side and the blocking pool is forced by gates, not every timing of the two thread pools is explored; a shrunk case that depends on thread timing may not reproduce, the originally observed case is reported then", "stateful property-based testing (proptest) with thread-identity and logical-stamp oracles", "6 C14"),
     "C15": ("syncx", "exploration",
-            "deadpool-sqlite (:memory:), deadpool-r2d2 (scripted ManageConnection with has_broken / is_valid per connection) and deadpool-diesel (SqliteConnection :memory:, Fast / Verified / CustomQuery / CustomFunction) are driven through histories of get, return, interact (ok / panic / cancelled gated closure that panics or quietly breaks the connection when released: before the return, between return and next get, or during the next get's recycle) and mark-broken (r2d2 flags, dangling diesel transaction, failing custom function). Each connection carries an identity the pool cannot change (PRAGMA user_version or a serial number); no hand-out may show an identity on which a closure panicked or that was reported broken / invalid, the get meeting such a connection must succeed, and the end probe takes max_size healthy connections.",
+            "deadpool-sqlite (:memory:), deadpool-r2d2 (scripted ManageConnection with has_broken / is_valid per connection) and deadpool-diesel (SqliteConnection :memory:, Fast / Verified / CustomQuery / CustomFunction) are driven through histories of get, return, interact (ok / panic / cancelled gated closure that panics or quietly breaks the connection when released: before the return, between return and next get, or during the next get's recycle) and mark-broken (r2d2 flags, dangling diesel transaction, failing custom function), on pools with or without harmless hooks. Each connection carries an identity the pool cannot change (PRAGMA user_version or a serial number); no hand-out may show an identity on which a closure panicked or that was reported broken / invalid, the get meeting such a connection must succeed, and the end probe takes max_size healthy connections.",
             "sqlite has no notion of a broken connection (poisoning only); a get blocked behind a gated closure is released after 30 ms by opening all gates, no verdict depends on the wall clock", "stateful property-based testing (proptest) over three SyncWrapper-based pools; immutable connection identity as oracle", "6 C15"),
     "C05": ("usim", "exploration",
             "Histories of get / try_get / timeout_get / add / try_add / remove / try_remove / take / return / cancel on pools built by new, from_config and From<Vec>, with thread-level pauses between the statements of Object::drop, Object::take, _add, try_get and close. Identity-tagged objects: after every step and at every park each id is in exactly one place (queue, one caller, handed back), none is destroyed by an open pool, queued + checked out <= max_size; sequential model for every call made at a quiescent point (try_add Timeout iff full with the same object back, add pending iff full, try_get Timeout iff empty); at rest status() and both semaphores equal ground truth.",
